@@ -1,6 +1,202 @@
 (* C08 — Resolution is a pure function of its inputs.
-   Property theorems only; proofs live in Proofs/CachesProofs.v. *)
-From Apko Require Import Base.Prelude Model.Caches Spec.CachesSpec Proofs.CachesProofs.
+   Property theorems only; proofs live in Proofs/CachesProofs.v and
+   Proofs/CachesBridgeProofs.v.
+
+   The cache layer (shameful_global_caches.go, PkgResolver.Clone, the memo
+   tables) is modelled over an explicit store (Model/Caches.v). The resolver
+   core is a parameter [core] about which the FRAME HYPOTHESIS is assumed:
+     CoreWritesOnlyOwned      it writes only selected and the disqualification map it was handed
+     CoreKeepsLength          it never shrinks the store
+     CoreReadsThroughHandles  its result depends only on what is reachable from its handles
+   c08_pure_cores_satisfy_frame discharges it for every core given by a pure
+   function of the view, in particular for the sequential resolver model of
+   Model/Resolver.v (c08_history_independent_resolver). *)
+From Apko Require Import Base.Prelude Model.Caches Spec.CachesSpec Proofs.CachesProofs
+  Model.CachesBridge Proofs.CachesBridgeProofs.
+From Apko Require Model.Version Model.Resolver.
+Open Scope string_scope. Open Scope list_scope.
+
+(* FRAME. Whatever history came before, a call changes NO object that existed
+   when it started: no cached prototype, none of the slices shared by the
+   clones' maps, no cached disqualification map. Its writes go to references
+   allocated by its own clones. *)
+Theorem c08_frame : forall mk_names mk_iif dq_diff dkey R core,
+  CoreWritesOnlyOwned R core -> CoreKeepsLength R core ->
+  forall hist c r,
+    let x := run_history mk_names mk_iif dq_diff dkey R core true hist in
+    r < List.length (st x) ->
+    sget (st (fst (call_step mk_names mk_iif dq_diff dkey R core true x c))) r = sget (st x) r.
+Proof. exact call_frame. Qed.
+Print Assumptions c08_frame.
+
+(* ... in particular every cached prototype still is what newPkgResolver built
+   for its key, with an EMPTY selected (observed on the real code through the
+   hook VerifResolverPrototype after every history) *)
+Theorem c08_frame_prototypes : forall mk_names mk_iif dq_diff dkey R core,
+  CoreWritesOnlyOwned R core -> CoreKeepsLength R core ->
+  forall hist k h,
+    find_key k (rcache (run_history mk_names mk_iif dq_diff dkey R core true hist)) = Some h ->
+    view_ok mk_names mk_iif (st (run_history mk_names mk_iif dq_diff dkey R core true hist)) h k.
+Proof. exact cached_prototypes_pristine. Qed.
+Print Assumptions c08_frame_prototypes.
+
+(* HISTORY INDEPENDENCE. For EVERY history and call: the result after the
+   history is the result on an empty store - provided no earlier call with the
+   same disqualification-cache key had a different disqualifyDifference (see
+   c08_dq_cache_key_refuted for why the proviso cannot be dropped). *)
+Theorem c08_history_independent : forall mk_names mk_iif dq_diff dkey R core,
+  CoreWritesOnlyOwned R core -> CoreKeepsLength R core -> CoreReadsThroughHandles R core ->
+  forall hist c,
+    GroupingCompatible dq_diff dkey hist c ->
+    result_after mk_names mk_iif dq_diff dkey R core true hist c =
+    result_fresh mk_names mk_iif dq_diff dkey R core true c.
+Proof. exact history_independent. Qed.
+Print Assumptions c08_history_independent.
+
+(* the proviso in the form "no earlier call used the same index set with
+   another architecture grouping" *)
+Theorem c08_history_independent_same_grouping : forall mk_names mk_iif dq_diff dkey R core,
+  CoreWritesOnlyOwned R core -> CoreKeepsLength R core -> CoreReadsThroughHandles R core ->
+  forall hist c,
+    (forall c', In c' hist -> dkey (cl_archs c') = dkey (cl_archs c) -> cl_archs c' = cl_archs c) ->
+    result_after mk_names mk_iif dq_diff dkey R core true hist c =
+    result_fresh mk_names mk_iif dq_diff dkey R core true c.
+Proof.
+  intros mk_names mk_iif dq_diff dkey R core H1 H2 H3 hist c G.
+  exact (history_independent mk_names mk_iif dq_diff dkey R core H1 H2 H3 hist c
+           (same_grouping_compatible dq_diff dkey hist c G)).
+Qed.
+Print Assumptions c08_history_independent_same_grouping.
+
+(* the frame hypothesis holds of every core that is a pure function of what it
+   reads through its handles and writes back selected / dq only *)
+Theorem c08_pure_cores_satisfy_frame : forall R f (fail : R),
+  CoreWritesOnlyOwned R (core_of f fail) /\ CoreKeepsLength R (core_of f fail) /\
+  CoreReadsThroughHandles R (core_of f fail).
+Proof. intros R f fail. exact (conj (core_of_frame R f fail) (conj (core_of_len R f fail) (core_of_reads R f fail))). Qed.
+Print Assumptions c08_pure_cores_satisfy_frame.
+
+(* ... and is not vacuous: a core that sorts a shared slice in place violates it *)
+Theorem c08_frame_hypothesis_not_vacuous : ~ CoreWritesOnlyOwned unit slice_writer.
+Proof. exact slice_writer_breaks_frame. Qed.
+Print Assumptions c08_frame_hypothesis_not_vacuous.
+
+(* INSTANCE for the sequential resolver model: after any history a call returns
+   what Resolver.resolve_with returns for the resolver of the call's own
+   indexes, an empty selected and the disqualification set of the call's own
+   grouping - whatever the resolution leaves behind in its selected / dq maps
+   ([fsel], [fdq]) and whatever order the install_if loops take ([scheds]). *)
+Theorem c08_history_independent_resolver : forall u scheds fsel fdq hist c,
+  GroupingCompatible (dq_difference u) (dq_key u) hist c ->
+  result_after (mk_names_of u) (mk_iif_of u) (dq_difference u) (dq_key u) _ (resolver_core u scheds fsel fdq) true hist c =
+  lift_res u (cl_indexes c)
+    (Resolver.resolve_with
+       (resolver_of_view u (fresh_view (mk_names_of u) (mk_iif_of u) (dq_difference u) c (cl_archs c)))
+       (cl_world c) (flat_pids u (cl_indexes c) (dq_difference u (cl_archs c))) scheds).
+Proof. exact resolver_history_independent. Qed.
+Print Assumptions c08_history_independent_resolver.
+
+(* NON-VACUITY: with the clone removed (`return pr`, `return dq`) the statement
+   is false - two consecutive resolutions of different worlds over one index *)
+Theorem c08_no_clone_refuted :
+  (exists hist c, result_after ex_names ex_none ex_dq ex_key _ toy_core false hist c <>
+                  result_fresh ex_names ex_none ex_dq ex_key _ toy_core false c /\
+                  result_after ex_names ex_none ex_dq ex_key _ toy_core true hist c =
+                  result_fresh ex_names ex_none ex_dq ex_key _ toy_core true c /\
+                  cl_world c = ["a"; "b"]) /\
+  (exists hist c, result_after ex_names ex_none ex_dq ex_key _ toy_core false hist c <>
+                  result_fresh ex_names ex_none ex_dq ex_key _ toy_core false c /\
+                  result_after ex_names ex_none ex_dq ex_key _ toy_core true hist c =
+                  result_fresh ex_names ex_none ex_dq ex_key _ toy_core true c /\
+                  cl_world c = ["b"]).
+Proof.
+  split.
+  - exists [ex_call ["a"]], (ex_call ["a"; "b"]). destruct no_clone_selected_leaks as [A [B C]].
+    rewrite A. split; [rewrite B; discriminate|]. split; [rewrite C; vm_compute; reflexivity | reflexivity].
+  - exists [ex_call ["!b"]], (ex_call ["b"]). destruct no_clone_dq_leaks as [A [B C]].
+    rewrite A. split; [rewrite B; discriminate|]. split; [rewrite C; vm_compute; reflexivity | reflexivity].
+Qed.
+Print Assumptions c08_no_clone_refuted.
+
+(* MEMO TABLES. Whatever was looked up before, cachedParseVersion returns what
+   ParseVersion returns and cachedResolvePackageNameVersionPin what
+   ResolvePackageNameVersionPin returns (the C03 models of both). *)
+Theorem c08_memo_transparent :
+  (forall history k,
+     fst (memo_get string Version.mver String.eqb Version.parse_version
+            (memo_run string Version.mver String.eqb Version.parse_version [] history) k)
+     = Version.parse_version k) /\
+  (forall history k,
+     fst (memo_get string Version.constraint String.eqb (fun s => Some (Version.resolve_constraint s))
+            (memo_run string Version.constraint String.eqb (fun s => Some (Version.resolve_constraint s)) [] history) k)
+     = Some (Version.resolve_constraint k)).
+Proof.
+  split; intros history k.
+  - exact (memo_transparent string Version.mver String.eqb String.eqb_eq Version.parse_version history k).
+  - exact (memo_transparent string Version.constraint String.eqb String.eqb_eq _ history k).
+Qed.
+Print Assumptions c08_memo_transparent.
+
+(* what a call is handed in general: the disqualifyDifference of SOME call of
+   the history (or itself) that has the same key *)
+Theorem c08_dq_handed : forall mk_names mk_iif dq_diff dkey R core,
+  CoreWritesOnlyOwned R core -> CoreKeepsLength R core ->
+  forall hist c,
+    exists a, In a (List.map cl_archs (hist ++ [c])) /\ dkey a = dkey (cl_archs c) /\
+              dq_handed mk_names mk_iif dq_diff dkey R core hist c = dq_diff a.
+Proof. exact dq_handed_spec. Qed.
+Print Assumptions c08_dq_handed.
+
+(* [refuted] C08-F2. The key is the concatenation of all architectures' indexes
+   sorted by pin name: {x:[i0], y:[i1]} and {x:[i0,i1]} share an entry. After
+   the first, the second is handed a set that disqualifies only1 (and fails,
+   where a fresh process succeeds); in the other order the two-architecture
+   call is handed the empty set. Replayed on the real code: corpus/finding/F2. *)
+Theorem c08_dq_cache_key_refuted :
+  let handed := dq_handed f2_names ex_none (dq_difference f2_universe) (dq_key f2_universe) _ toy_core in
+  dq_key f2_universe (cl_archs f2_multi) = dq_key f2_universe (cl_archs f2_single) /\
+  dq_difference f2_universe (cl_archs f2_multi) = [(0, 0)] /\
+  dq_difference f2_universe (cl_archs f2_single) = [] /\
+  handed [f2_multi] f2_single = [(0, 0)] /\ handed [] f2_single = [] /\
+  handed [f2_single] f2_multi = [] /\ handed [] f2_multi = [(0, 0)] /\
+  result_after f2_names ex_none (dq_difference f2_universe) (dq_key f2_universe) _ toy_core true [f2_multi] f2_single
+    <> result_fresh f2_names ex_none (dq_difference f2_universe) (dq_key f2_universe) _ toy_core true f2_single /\
+  result_after f2_names ex_none (dq_difference f2_universe) (dq_key f2_universe) _ toy_core true [f2_single] f2_multi
+    <> result_fresh f2_names ex_none (dq_difference f2_universe) (dq_key f2_universe) _ toy_core true f2_multi.
+Proof. exact dq_cache_key_refuted. Qed.
+Print Assumptions c08_dq_cache_key_refuted.
+
+(* [refuted] C08-F1. `for dep := range added`: two legal iteration orders of the
+   same map give two install orders. Replayed on the real code: corpus/finding/F1. *)
+Theorem c08_order_deterministic_refuted :
+  added_keys f1_universe "w" = Ok ["a"; "b"] /\
+  Resolver.legal_sched_b ["a"; "b"] ["a"; "b"] = true /\ Resolver.legal_sched_b ["a"; "b"] ["b"; "a"] = true /\
+  Resolver.resolve f1_universe ["w"] [] [["a"; "b"]] = Ok [1; 2; 3; 4; 0] /\
+  Resolver.resolve f1_universe ["w"] [] [["b"; "a"]] = Ok [1; 2; 4; 3; 0].
+Proof. exact order_deterministic_refuted. Qed.
+Print Assumptions c08_order_deterministic_refuted.
+
+(* [refuted] C08-F3. The same loop inserts into the map it ranges over; whether
+   the new key is visited decides whether a chained install_if package is
+   installed at all. Replayed on the real code: corpus/finding/F3. *)
+Theorem c08_install_if_members_refuted :
+  added_keys f3_universe "w" = Ok ["a"] /\
+  Resolver.legal_sched_b ["a"] ["a"] = true /\ Resolver.legal_sched_b ["a"] ["a"; "b"] = true /\
+  Resolver.resolve f3_universe ["w"] [] [["a"]] = Ok [1; 3; 0] /\
+  Resolver.resolve f3_universe ["w"] [] [["a"; "b"]] = Ok [1; 3; 2; 0].
+Proof. exact install_if_members_refuted. Qed.
+Print Assumptions c08_install_if_members_refuted.
+
+(* [partial] the result does not depend on the iteration orders at all when no
+   package of the universe has an install_if entry. MISSING for the full
+   c08_order_deterministic_partial of the design ("at most one install_if
+   package triggered per requested package"): a commutation argument for
+   iif_visit on keys that trigger nothing. *)
+Theorem c08_order_deterministic_partial : forall U world dq0 s1 s2,
+  Resolver.r_iif (Resolver.new_resolver U) = [] ->
+  Resolver.resolve U world dq0 s1 = Resolver.resolve U world dq0 s2.
+Proof. exact order_deterministic_without_install_if. Qed.
+Print Assumptions c08_order_deterministic_partial.
 
 (* the boolean validator run on the implementation's observed outcomes decides
    exactly the readable statement *)
